@@ -24,9 +24,11 @@ PROGS = [
      "root": [["rel", 4, 0, 5], ["rel", 4, 1, 7], ["rel", 10, 2, 5], ["rel", 10, 3, 1]],
      "nodes": [[["rel", 4, 1, 5]], [], [["now", 3, 5]], [["rel", 1, 1, 5]]]},
     # variant: replication that does not start at time zero (end time != run length)
+    # (its second handler also asks for an event a hair before the clock: refused, the time never runs backwards)
     {"clock": "float", "cap": 50, "rep": {"start": fx(100.0), "warmup": fx(2.5), "length": fx(10.0)},
      "root": [["rel", fx(1.0), 0, 5]],
-     "nodes": [[["rel", fx(3.0), 1, 5]], [["rel", fx(3.0), 2, 5]], [["rel", fx(5.0), 3, 5]], []]},
+     "nodes": [[["rel", fx(3.0), 1, 5]], [["rel", fx(3.0), 2, 5], ["ev_off", fx(-1e-10), 3, 5]],
+               [["rel", fx(5.0), 3, 5]], []]},
 ]
 BOUNDS = [[fx(4.0), fx(8.5), fx(15.0)], [4, 9, 14], [fx(104.0), fx(108.5), fx(130.0)]]   # the third lies beyond the end
 ALPHABET = ["init", "start", "step", "stop", "rut0", "rut1", "ruti0", "ruti1", "endrep", "cleanup", "rut2"]
